@@ -45,6 +45,7 @@ func init() {
 type world struct {
 	overlay *overlaydb.OverlayDB
 	height  uint32
+	time    uint32
 	sh      *shadow
 	cur     *snapshot       // canonical state after the last op (nil: not computed)
 	keys    map[string]bool // declared public keys (hex of the canonical serialization)
@@ -176,7 +177,7 @@ func (w *world) invoke(signers []common.Address, contract common.Address, method
 	ip := states.ContractInvokeParam{Address: contract, Method: method, Args: args}
 	sink := common.NewZeroCopySink(nil)
 	ip.Serialization(sink)
-	svc, err := native.NewNativeService(cache, tx, 0, w.height, common.Uint256{}, 0, sink.Bytes(), w.dry)
+	svc, err := native.NewNativeService(cache, tx, w.time, w.height, common.Uint256{}, 0, sink.Bytes(), w.dry)
 	if err != nil {
 		panic(err)
 	}
@@ -211,7 +212,7 @@ func (w *world) direct(signers []common.Address, f func(svc *native.NativeServic
 func (w *world) directIn(signers []common.Address, input []byte, f func(svc *native.NativeService) (bool, error)) callResult {
 	cache := storage.NewCacheDB(w.overlay)
 	tx := &types.Transaction{SignedAddr: signers}
-	svc, err := native.NewNativeService(cache, tx, 0, w.height, common.Uint256{}, 0, input, w.dry)
+	svc, err := native.NewNativeService(cache, tx, w.time, w.height, common.Uint256{}, 0, input, w.dry)
 	if err != nil {
 		panic(err)
 	}
